@@ -125,6 +125,18 @@ func upl(n int) Variant {
 	return list(names, strings.Join(names, ", "))
 }
 
+// bigDescription: a long description of n continuation lines (a control file larger than one read of a decompressor gives)
+func bigDescription(n int) Variant {
+	lines := make([]string, n)
+	for i := range lines {
+		lines[i] = fmt.Sprintf("line %04d of a very long description", i)
+		if i%50 == 49 {
+			lines[i] = "."
+		}
+	}
+	return multi("a package with a long description", lines...)
+}
+
 func intv(n int) Variant { return Variant{[]string{fmt.Sprint(n)}, fmt.Sprint(n)} }
 
 func ver(s string) Variant {
@@ -227,6 +239,8 @@ var (
 	h4G  = fileEntry{"fedcba9876543210fedcba9876543210", 4294967296, "hello_2.10.orig-big.tar.xz", "devel", "optional"}  // exactly 2^32
 	hNF  = fileEntry{"0cc175b9c0f1b6a831c399e269772661", 725946, "hello_2.10.orig.tar.gz", "non-free/utils", "optional"} // area-qualified sections
 	hCT  = fileEntry{"92eb5ffee6ae2fec3ad71c777531578f", 6132, "hello_2.10-1.debian.tar.xz", "contrib/net", "extra"}
+	hUP  = fileEntry{"0CC175B9C0F1B6A831C399E269772661", 725946, "hello_2.10.orig.tar.gz", "devel", "optional"} // upper-case hex, as some tools write it
+	tUP  = fileEntry{hash: "CA978112CA1BBDCAFAC231B39A23DC4DA786EFF8147C4E72B9807785AFEE48BB", size: 725946, name: "hello_2.10.orig.tar.gz"}
 	s1   = fileEntry{hash: "da39a3ee5e6b4b0d3255bfef95601890afd80709", size: 1131, name: "hello_2.10-1.dsc"}
 	s2   = fileEntry{hash: "86f7e437faa5a7fce15d1ddcb9eaeaea377667b8", size: 725946, name: "hello_2.10.orig.tar.gz"}
 	t1   = fileEntry{hash: "e3b0c44298fc1c149afbf4c8996fb92427ae41e4649b934ca495991b7852b855", size: 1131, name: "hello_2.10-1.dsc"}
@@ -266,8 +280,8 @@ func dscFields() []FSpec {
 		{"Build-Depends-Arch", "BuildDependsArch", "dep", depVariants()},
 		{"Build-Depends-Indep", "BuildDependsIndep", "dep", depVariants()},
 		{"Checksums-Sha1", "ChecksumsSha1", "sha1", []Variant{files("sha1", s1, s2), files("sha1", s1), files("sha1", s1, hBig)}},
-		{"Checksums-Sha256", "ChecksumsSha256", "sha256", []Variant{files("sha256", t1, t2, t3), files("sha256", t1), files("sha256", t1, h4G, hBig)}},
-		{"Files", "Files", "md5", []Variant{files("md5", h1, h2, h3), files("md5", h2), files("md5", h2, h1), files("md5", h1, hBig, h4G)}},
+		{"Checksums-Sha256", "ChecksumsSha256", "sha256", []Variant{files("sha256", t1, t2, t3), files("sha256", t1), files("sha256", t1, h4G, hBig), files("sha256", t1, tUP)}},
+		{"Files", "Files", "md5", []Variant{files("md5", h1, h2, h3), files("md5", h2), files("md5", h2, h1), files("md5", h1, hBig, h4G), files("md5", h1, hUP)}},
 	}
 }
 
@@ -409,7 +423,7 @@ func debControlFields() []FSpec {
 		{"Section", "Section", "scalar", []Variant{scalar("devel")}},
 		{"Priority", "Priority", "scalar", []Variant{scalar("optional")}},
 		{"Homepage", "Homepage", "scalar", []Variant{scalar("https://www.gnu.org/software/hello/")}},
-		{"Description", "Description", "scalar", []Variant{multi("example package", "long text", ".", "more"), scalar("short"), multi("verbatim block", "  .", "  #1", "  x")}},
+		{"Description", "Description", "scalar", []Variant{multi("example package", "long text", ".", "more"), scalar("short"), multi("verbatim block", "  .", "  #1", "  x"), bigDescription(3000)}},
 	}
 }
 
